@@ -682,6 +682,16 @@ def _graphpart_instances(ctx):
         if set(x for e in es for x in e) == set(vs6):
             got += 1
             yield {"cls": "GraphPartitioning", "edges": es, "weights": None}
+            # the same graph with every edge written in a random / reversed orientation
+            yield {"cls": "GraphPartitioning", "edges": [e[::-1] if rng.random() < 0.5 else e for e in es], "weights": None}
+    # structured graphs whose edge tuples are written head-to-tail (orientation must not matter):
+    # cycles plus a disjoint edge, inward/outward stars, paths
+    for es in ([[0, 1], [1, 2], [2, 3], [3, 0], [4, 5]], [[1, 0], [2, 1], [3, 2], [0, 3], [5, 4]],
+               [[0, 1], [1, 2], [2, 0], [3, 4], [4, 5], [5, 3]], [[1, 0], [2, 0], [3, 0], [4, 0], [5, 0]],
+               [[0, 1], [0, 2], [0, 3], [4, 5]], [[1, 0], [2, 0], [3, 0], [5, 4]],
+               [[0, 1], [1, 2], [2, 3], [3, 4], [4, 5]], [[1, 0], [2, 1], [3, 2], [4, 3], [5, 4]],
+               [[0, 1], [1, 2], [2, 3], [3, 0], [0, 2], [4, 5]], [[3, 0], [2, 3], [1, 2], [0, 1], [5, 4]]):
+        yield {"cls": "GraphPartitioning", "edges": es, "weights": None}
 
 
 def _np_feasible(S):
@@ -847,13 +857,26 @@ def _gen_t2b(ctx):
         for form in ("qubo", "quso"):
             for B in (1, 2):
                 yield {"inst": inst, "form": form, "B": B}
-    for inst in _graphpart_instances(ctx):
-        for form in ("quso", "qubo"):
-            for B in (1, 2):
-                yield {"inst": inst, "form": form, "B": B}
     for inst in _numpart_instances(ctx):
         for form in ("quso", "qubo"):
             yield {"inst": inst, "form": form}
+
+
+def _gen_t2c(ctx):
+    insts = list(_graphpart_instances(ctx))
+    # the structured (oriented) graphs are emitted last by the generator: judge them first
+    for inst in insts[-10:] + insts[:-10]:
+        for form in ("quso", "qubo"):
+            for B in (1, 2):
+                yield {"inst": inst, "form": form, "B": B}
+
+
+@clause("C10.tier2.graph_partitioning", "C10", gen=_gen_t2c, nontrivial=_nontrivial_instance)
+def check_tier2_c(case):
+    """GraphPartitioning with the default A (derived from B and the maximum degree; B in {1, 2}), edges written in any
+    orientation: the ground energy equals B * optimal cut and at least one ground state decodes to a balanced
+    partition of minimum cut."""
+    return _judge(case, 2)
 
 
 @clause("C10.tier2.sequencing_partitioning", "C10", gen=_gen_t2b, nontrivial=_nontrivial_instance)
